@@ -184,5 +184,31 @@ mod harness {
         kani::cover!(expect.is_none() && idx < 0);
         forget(v);
     }
-}
 
+    // ------------------------------------------------------------------ C17: date-time comparison is chronological
+    /// C17/C11: the same instant seen in two offsets is equal and ordered Equal; different instants order chronologically
+    #[kani::proof]
+    fn c17_datetime_order_is_chronological() {
+        use liquid_core::model::DateTime;
+        let base = DateTime::from_ymd(2020, 6, 15);
+        let oa: i8 = kani::any();
+        let ob: i8 = kani::any();
+        kani::assume(oa >= -12 && oa <= 14 && ob >= -12 && ob <= 14);
+        let sa: i32 = kani::any();
+        let sb: i32 = kani::any();
+        kani::assume(sa >= -100_000 && sa <= 100_000 && sb >= -100_000 && sb <= 100_000);
+        let ta = *base + time::Duration::seconds(sa as i64);
+        let tb = *base + time::Duration::seconds(sb as i64);
+        let mut a = base;
+        *a = ta.to_offset(time::UtcOffset::from_hms(oa, 0, 0).unwrap());
+        let mut b = base;
+        *b = tb.to_offset(time::UtcOffset::from_hms(ob, 0, 0).unwrap());
+        let sca = ScalarCow::new(a);
+        let scb = ScalarCow::new(b);
+        assert!((sca == scb) == (sa == sb), "date-times are equal exactly when they denote the same instant, whatever their offsets");
+        assert!(sca.partial_cmp(&scb) == sa.partial_cmp(&sb), "date-time ordering must be chronological");
+        kani::cover!(sa == sb && oa != ob);
+        forget(sca);
+        forget(scb);
+    }
+}
